@@ -610,7 +610,9 @@ def decorate(ctx, op):
     elif k == 'iv_odd':
         op['iv'] = ctx.rbytes(r.choice([0, 1, 15, 17, 64]))
     elif k == 'derive_iter':
-        op.setdefault('params', {})['iter'] = r.choice(BOUNDARY_INTS)
+        # (not 2**31-1: PBKDF2 would really run that many rounds)
+        op.setdefault('params', {})['iter'] = r.choice(
+            [0, 1, -1, 7, -2 ** 31, 65536])
     elif k == 'derive_salt':
         op.setdefault('params', {})['salt'] = r.choice(['', ctx.rbytes(300)])
     elif k == 'revoke_msg':
